@@ -1246,6 +1246,27 @@ fn gen_c10(o: &mut Out, r: &mut Rng, th: bool) {
         let ops = gen_ops(r, n_ops, n_uuid, n % 16 == 0);
         do_build(o, &ops, false, fresh);
     }
+    // a UUID-typed item that is REFUSED because its type item no longer fits, followed by smaller items
+    // of the same UUID type that do fit (the registry must not remember a type that was never written)
+    for l in (if th { 16300..=16384 } else { 16340..=16384 }) {
+        let u = uuid_n(7);
+        let ops: Vec<Op> = vec![
+            (TypeId::Ordinal(5), 1, vec![0; l]),
+            (TypeId::Uuid(u), 7, vec![1, 2, 3]),
+            (TypeId::Uuid(u), 8, vec![]),
+            (TypeId::Uuid(u), 9, vec![4]),
+            (TypeId::Ordinal(6), 2, vec![]),
+        ];
+        do_build(o, &ops, true, fresh);
+    }
+    for n_items in 1019..=1024usize {
+        let u = uuid_n(8);
+        let mut ops: Vec<Op> = (0..n_items).map(|i| (TypeId::Ordinal(9), i as u16, vec![])).collect();
+        ops.push((TypeId::Uuid(u), 7, vec![1]));
+        ops.push((TypeId::Uuid(u), 8, vec![]));
+        ops.push((TypeId::Uuid(uuid_n(9)), 8, vec![]));
+        do_build(o, &ops, true, fresh);
+    }
     // up to the limits: item count, byte size, many UUID types
     for n in 0..(if th { 30 } else { 3 }) {
         let n_uuid = if n % 2 == 0 { 40 } else { 300 };
